@@ -416,6 +416,7 @@ def tl_init(self, g):
     g.bl = 0
     g.tb = 0
     g.P = []
+    g.fs = []          # the block's whole checkpoint stack: its periodic checkpoint, then g.cs
     init_common(self, g)
 
 
@@ -442,10 +443,8 @@ def tl_forward(self, g, n0, n1, write_ics, write_adj_deps, storage):
         else:
             k = len(g.cs)
             kp = len(g.P)
-            if k >= 1:
-                g.P.append(g.P[kp - 1] + WADV(n0 - g.cs[k - 1], self._binomial_snapshots + 1 - kp + 1, self._trajectory))
-            else:
-                g.P.append(g.P[kp - 1] + WADV(n0 - g.bs, self._binomial_snapshots + 1 - kp + 1, self._trajectory))
+            g.P.append(g.P[kp - 1] + WADV(n0 - g.fs[kp - 1], self._binomial_snapshots + 1 - kp + 1, self._trajectory))
+            g.fs.append(n0)
             assert storage == self._binomial_storage, "C13:extra_checkpoints_only_in_binomial_storage"
             assert self.uses_storage_type(storage), "C11:uses_storage_type_true_for_every_storage_touched"
             assert write_ics and not write_adj_deps, "C03:restart_checkpoints_only"
@@ -491,6 +490,7 @@ def tl_load(self, g, n, from_storage, to_storage, is_move):
             g.cs.pop()
             g.cov.pop()
             g.P.pop()
+            g.fs.pop()
     else:
         # a periodic disk checkpoint
         if g.N - g.adj == min(n + self._period, g.N):
@@ -500,8 +500,11 @@ def tl_load(self, g, n, from_storage, to_storage, is_move):
             g.tb = 0
             g.P = []
             g.P.append(0)
+            g.fs = []
+            g.fs.append(n)
         if n == g.N - g.adj - 1:
             g.P.pop()        # last step of the block: the periodic checkpoint leaves the stack
+            g.fs.pop()
         assert from_storage == StorageType.DISK and n % self._period == 0 and 0 <= n and n < g.pend, \
             "C01:checkpoint_present"
         assert n + self._period >= g.N - g.adj, "C01:restart_checkpoint_covers_steps_to_recompute"
@@ -552,8 +555,8 @@ def mx_forward(self, g, n0, n1, write_ics, write_adj_deps, storage):
         work_forward(self, g, n0, n1, write_ics, write_adj_deps)
     else:
         k = len(g.cs)
-        assert storage == self._storage, "C03:only_the_chosen_storage"
         assert self.uses_storage_type(storage), "C11:uses_storage_type_true_for_every_storage_touched"
+        assert storage == self._storage, "C03:only_the_chosen_storage"
         assert k < self._snapshots, "C03:unit_available"
         assert forall(0, k, lambda i: g.cs[i] != n0), "C01:no_overwrite"
         if write_adj_deps:
@@ -587,8 +590,9 @@ def mx_load(self, g, n, from_storage, to_storage, is_move):
     load_common(self, g, n, from_storage, to_storage)
     assert to_storage == StorageType.WORK, "C18:loads_go_to_work"
     k = len(g.cs)
-    assert from_storage == self._storage, "C03:only_the_chosen_storage"
+    # (C11 first: a failed assertion is assumed afterwards and would mask it)
     assert self.uses_storage_type(from_storage), "C11:uses_storage_type_true_for_every_storage_touched"
+    assert from_storage == self._storage, "C01,C03:only_the_chosen_storage"
     assert k >= 1 and g.cs[k - 1] == n, "C01:checkpoint_present_on_top_of_stack"
     if g.ck[k - 1] == 4:
         assert g.cov[k - 1] >= g.N - g.adj, "C01:restart_checkpoint_covers_steps_to_recompute"
